@@ -1199,7 +1199,8 @@ private:
          , m_col(lp.colVector(_j))
       {
          assert(m_row[m_j] != 0.0);
-         simplifier.addObjoffset(m_obj * m_const / m_row[m_j]);
+         // the offset is counted in the user's sense (m_obj is the coefficient of the minimisation form)
+         simplifier.addObjoffset(lp.obj(_j) * m_const / m_row[m_j]);
       }
       /// copy constructor
       MultiAggregationPS(const MultiAggregationPS& old)
